@@ -95,6 +95,16 @@ def check(ctx):
                 why.append(f'is read from {srcs or "?"}, expected from {src}')
             ctx.ob('R3', fi, f"column '{name}'", ok if (ok or vi is not None) else None,
                    f'{kind.lower()} values' + (f' of {src}' if src else '') if ok else f"column '{name}' " + '; '.join(why))
+            if name == 'time' and v.appearance_order:
+                # a later re-ordering anywhere in the builder (sort_values, np.sort, .sort(), sorted) makes the clause undecided
+                resort = any(isinstance(c_, ast.Call) and ((isinstance(c_.func, ast.Attribute) and c_.func.attr in
+                                                            ('sort_values', 'sort', 'argsort', 'lexsort', 'sort_index'))
+                                                           or (isinstance(c_.func, ast.Name) and c_.func.id == 'sorted'))
+                             for c_ in ast.walk(fi.node))
+                ctx.ob('R3', fi, "column 'time' order", None if resort else False,
+                       'the change frames of an atom are de-duplicated in order of first appearance (pandas.unique), not sorted: when outer '
+                       'and inner change indices are merged, inner-only changes come after all outer changes, the rows of an atom are '
+                       'no longer chronological and the scan that pairs departures with arrivals reads them out of order')
             if kind in ('SITE',) and have_kind == 'SITE' and v.at == 'mixed':
                 ctx.ob('R2', fi, f"column '{name}' frame offset", False,
                        'change indices of different frame offsets (shift -1 gives t, shift +1 gives t+1) are merged into one '
